@@ -372,3 +372,35 @@ Definition las_with (log : list lmark) (a : astream) : lastream :=
    the length of the history before the call and one Release at its length after the call *)
 Definition lock_once (log : list lmark) (before after : writer) : list lmark :=
   log ++ [LAcq (length (w_calls before)); LRel (length (w_calls after))].
+
+(* ---- vocabulary of tools/gen_fn_fmt.py (Generated/FmtFn.v): crates/anstream/src/fmt.rs, translated ----
+   Small adapters only: no existing definition changes meaning. *)
+
+(* a Rust closure VALUE `W: FnMut(&[u8]) -> io::Result<()>`: its code (a state-passing function over the variables it
+   captures, as rs2v's e_closure emits it) together with the current value of those variables *)
+Definition fclosure (S : Type) : Type := ((list N -> S -> option (S * (unit + ekind))) * S)%type.
+(* `(closure)(bytes)`: run the code on the captured state; the closure keeps the new state *)
+Definition fclosure_call {S : Type} (c : fclosure S) (bytes : list N) : option (fclosure S * (unit + ekind)) :=
+  '(s1, r) <- fst c bytes (snd c) ;; Some ((fst c, s1), r).
+
+(* `struct Adapter<W> { writer: W, error: io::Result<()> }` *)
+Record fadapter (S : Type) : Type := mkFA { fa_writer : fclosure S; fa_error : unit + ekind }.
+Definition set_fa_writer (S : Type) (a : fadapter S) (w : fclosure S) : fadapter S := mkFA S w (fa_error S a).
+Definition set_fa_error (S : Type) (a : fadapter S) (e : unit + ekind) : fadapter S := mkFA S (fa_writer S a) e.
+
+Definition res_is_err {A E : Type} (r : A + E) : bool := match r with inl _ => false | inr _ => true end.
+
+(* `core::fmt::write(out, args)`: one `out.write_str(fragment)?` per fragment of the Arguments, in order; the first
+   `Err(fmt::Error)` stops it and is returned.  [write_str] is the `fmt::Write::write_str` of the output (here: the
+   TRANSLATED Adapter::write_str); `fmt::Result` = unit + unit; None = write_str panicked *)
+Fixpoint core_fmt_write {A : Type} (write_str : A -> list N -> option (A * (unit + unit))) (out : A)
+         (frags : list (list N)) : option (A * (unit + unit)) :=
+  match frags with
+  | [] => Some (out, inl tt)
+  | fr :: rest =>
+      '(out1, r) <- write_str out fr ;;
+      match r with
+      | inl _ => core_fmt_write write_str out1 rest
+      | inr e => Some (out1, inr e)
+      end
+  end.
